@@ -6,6 +6,8 @@ simulates a *new* frame), `advanceLockstepFrame` is `advance_lockstep_frame`, `l
 `SyncLayer::load_frame` (the only producer of LoadGameState requests).
 -/
 import GgrsModel.Model.Inventory
+import GgrsModel.Model.Sites.SyncLayer
+import GgrsModel.Model.Sites.P2pSession
 import GgrsModel.Model.P2P
 import GgrsModel.Proofs.Shape
 import GgrsModel.Proofs.Session
